@@ -76,11 +76,11 @@ func main() {
 	if len(runCmd) != 1 {
 		xlib.Unreadable("buildTarget: expected exactly one call of build(...), found %d", len(runCmd))
 	}
-	phaseOf := map[string]string{"StoreTargetMetadata": "metadata", "moveOutputs": "move",
+	phaseOf := map[string]string{"removeRuleHash": "unstamp", "StoreTargetMetadata": "metadata", "moveOutputs": "move",
 		"calculateAndCheckRuleHash": "stamp", "writeRuleHash": "stamp", "storeInCache": "cache"}
 	var phases []string
 	seen := map[string]bool{}
-	for _, c := range calls(bt.Body, set("StoreTargetMetadata", "moveOutputs", "calculateAndCheckRuleHash", "writeRuleHash", "storeInCache")) {
+	for _, c := range calls(bt.Body, set("removeRuleHash", "StoreTargetMetadata", "moveOutputs", "calculateAndCheckRuleHash", "writeRuleHash", "storeInCache")) {
 		if c.pos < runCmd[0].pos {
 			continue
 		}
@@ -209,6 +209,49 @@ func main() {
 		return true
 	})
 	out.Def("writeRuleHashOverFullOutputs", "Bool", xlib.LeanBool(fullOuts))
+
+	// --- removeRuleHash: the stamps of every declared output are dropped (the repair of the C32 findings)
+	var unsteps []string
+	unFull := false
+	for _, d := range inc.AST.Decls {
+		fd, ok := d.(*ast.FuncDecl)
+		if !ok || fd.Name.Name != "removeRuleHash" || fd.Body == nil {
+			continue
+		}
+		for _, st := range fd.Body.List {
+			switch x := st.(type) {
+			case *ast.IfStmt:
+				if containsCall(x.Body, "RemoveAttr") {
+					unsteps = append(unsteps, "if("+inc.Src(x.Cond)+"):RemoveAttr")
+				}
+			case *ast.RangeStmt:
+				if containsCall(x.Body, "RemoveAttr") {
+					c := calls(x.Body, set("RemoveAttr"))[0]
+					role := "other"
+					if v, ok := x.Value.(*ast.Ident); ok && len(c.node.Args) > 0 && inc.Src(c.node.Args[0]) == v.Name {
+						role = "element"
+					}
+					unsteps = append(unsteps, "range("+inc.Src(x.X)+"):RemoveAttr("+role+")")
+				}
+			case *ast.AssignStmt:
+				if len(x.Lhs) == 1 && len(x.Rhs) == 1 && inc.Src(x.Lhs[0]) == "outputs" {
+					if c, ok := x.Rhs[0].(*ast.CallExpr); ok && calleeName(c) == "FullOutputs" {
+						unFull = true
+					}
+				}
+			}
+		}
+	}
+	out.Def("removeRuleHashSteps", "List String", xlib.LeanStrList(unsteps))
+	out.Def("removeRuleHashOverFullOutputs", "Bool", xlib.LeanBool(unFull))
+	// fs.RemoveAttr: the fallback record and the xattr both go
+	var rmAttr []string
+	for _, d := range attr.AST.Decls {
+		if fd, ok := d.(*ast.FuncDecl); ok && fd.Name.Name == "RemoveAttr" && fd.Body != nil {
+			rmAttr = names(calls(fd.Body, set("Remove", "fallbackFileName", "LRemove")))
+		}
+	}
+	out.Def("removeAttrCalls", "List String", xlib.LeanStrList(rmAttr))
 
 	// --- readRuleHashFromXattrs: the loop
 	rr := inc.Func("readRuleHashFromXattrs")
